@@ -54,53 +54,53 @@ def gen_ops(ctx):
     # ---- BMP
     seeds = G.bmp_seeds(r, th)
     for i, (tag, b, native, dims) in enumerate(seeds):
-        plan.add("bmp", tag + ":valid", b, native, dims, full=(i % (4 if th else 16) == 0))
+        plan.add("bmp", tag + ":valid", b, native, dims, full=(i % (8 if th else 16) == 0))
     for i, (tag, b, native, dims) in enumerate(seeds):
         if dims == (2, 2) or (th and dims in ((1, 1), (3, 2), (5, 1))): cuts = G.truncations(b, r, True)          # every truncation point
         elif th: cuts = G.truncations(b, r, False)
         else: cuts = [("trunc:%d" % k, b[:k]) for k in sorted({r.below(len(b)) for _ in range(6)})]
         for (m, x) in cuts:
-            plan.add("bmp", tag + ":" + m, x, native, dims, n_variants=1 if not th else 2)
+            plan.add("bmp", tag + ":" + m, x, native, dims, n_variants=1)
     for i, (tag, b, native, dims) in enumerate(seeds):
         if not th and dims != (3, 2): continue
         for (m, x) in G.field_mutations(b, G.BMP_FIELDS, G.BMP_EXTRA):
             if not th and r.chance(3, 4) and not any(k in tag for k in ("bmp24", "bmp8p_h40_c0", "bmprle8", "bmp16bf565")): continue
-            plan.add("bmp", tag + ":" + m, x, native, dims, n_variants=1 if not th else 2)
+            plan.add("bmp", tag + ":" + m, x, native, dims, n_variants=1)
     for (tag, b, native, dims) in seeds:
         off = int.from_bytes(b[10:14], "little")
         start = 54 if ("p_h" in tag or "rle" in tag or "bf" in tag) else off      # palette / masks / run lengths
         for (m, x) in G.tail_corruptions(b, min(start, len(b) - 1), r, 3 if th else 1):
-            plan.add("bmp", tag + ":" + m, x, native, dims, n_variants=1 if not th else 2)
-        for (m, x) in G.random_mutations(b, r, 12 if th else 3):
-            plan.add("bmp", tag + ":" + m, x, native, dims, n_variants=1 if not th else 2)
+            plan.add("bmp", tag + ":" + m, x, native, dims, n_variants=1)
+        for (m, x) in G.random_mutations(b, r, 6 if th else 3):
+            plan.add("bmp", tag + ":" + m, x, native, dims, n_variants=1)
     # ---- PNM
     seeds = G.pnm_seeds(r, th)
     for i, (tag, b, native, dims) in enumerate(seeds):
-        plan.add("pnm", tag + ":valid", b, native, dims, full=(i % (4 if th else 16) == 0))
+        plan.add("pnm", tag + ":valid", b, native, dims, full=(i % (8 if th else 16) == 0))
     for i, (tag, b, native, dims) in enumerate(seeds):
         if dims == (2, 2) or (th and dims in ((1, 1), (3, 2), (5, 1))): cuts = G.truncations(b, r, True)
         elif th: cuts = G.truncations(b, r, False)
         else: cuts = [("trunc:%d" % k, b[:k]) for k in sorted({r.below(len(b)) for _ in range(6)})]
-        for (m, x) in cuts: plan.add("pnm", tag + ":" + m, x, native, dims, n_variants=1 if not th else 2)
+        for (m, x) in cuts: plan.add("pnm", tag + ":" + m, x, native, dims, n_variants=1)
     for i, (tag, b, native, dims) in enumerate(seeds):
         if not th and dims != (3, 2): continue
-        for (m, x) in G.pnm_mutations(b, r, th): plan.add("pnm", tag + ":" + m, x, native, dims, n_variants=1 if not th else 2)
+        for (m, x) in G.pnm_mutations(b, r, th): plan.add("pnm", tag + ":" + m, x, native, dims, n_variants=1)
     for (tag, b, native, dims) in seeds:
         start = min(len(b) - 1, 12)
-        for (m, x) in G.tail_corruptions(b, start, r, 3 if th else 1): plan.add("pnm", tag + ":" + m, x, native, dims, n_variants=1 if not th else 2)
-        for (m, x) in G.random_mutations(b, r, 12 if th else 3): plan.add("pnm", tag + ":" + m, x, native, dims, n_variants=1 if not th else 2)
+        for (m, x) in G.tail_corruptions(b, start, r, 3 if th else 1): plan.add("pnm", tag + ":" + m, x, native, dims, n_variants=1)
+        for (m, x) in G.random_mutations(b, r, 6 if th else 3): plan.add("pnm", tag + ":" + m, x, native, dims, n_variants=1)
     # ---- TARGA
     seeds = G.tga_seeds(r, th)
     for i, (tag, b, native, dims) in enumerate(seeds):
-        plan.add("tga", tag + ":valid", b, native, dims, full=(i % (4 if th else 10) == 0))
+        plan.add("tga", tag + ":valid", b, native, dims, full=(i % (8 if th else 10) == 0))
     for i, (tag, b, native, dims) in enumerate(seeds):
         if dims == (2, 2) or (th and dims in ((1, 1), (3, 2), (5, 1))): cuts = G.truncations(b, r, True)
         elif th: cuts = G.truncations(b, r, False)
         else: cuts = [("trunc:%d" % k, b[:k]) for k in sorted({r.below(len(b)) for _ in range(8)})]
-        for (m, x) in cuts: plan.add("tga", tag + ":" + m, x, native, dims, n_variants=1 if not th else 2)
+        for (m, x) in cuts: plan.add("tga", tag + ":" + m, x, native, dims, n_variants=1)
     for i, (tag, b, native, dims) in enumerate(seeds):
         if not th and dims != (3, 2): continue
-        for (m, x) in G.field_mutations(b, G.TGA_FIELDS, G.TGA_EXTRA): plan.add("tga", tag + ":" + m, x, native, dims, n_variants=1 if not th else 2)
+        for (m, x) in G.field_mutations(b, G.TGA_FIELDS, G.TGA_EXTRA): plan.add("tga", tag + ":" + m, x, native, dims, n_variants=1)
     # huge declared dimensions with a small requested region (the destination allocation does not stop these)
     for (w, h) in ((65535, 65535), (46341, 46341), (30000, 30000), (65535, 2), (2, 65535), (16384, 2), (16385, 2)):
         for bpp in (24, 32):
@@ -110,12 +110,12 @@ def gen_ops(ctx):
                     dst = "rgba8" if (e == "conv" or bpp == 32) else "rgb8"
                     plan.ops.append(mkop("tga", e, d, dst, b, (0, 0, 1, 1), (1, 1) if e == "view" else (0, 0))); plan.tags.append("tga/huge:%dx%d" % (w, h))
     for (tag, b, native, dims) in seeds:
-        for (m, x) in G.tail_corruptions(b, min(18, len(b) - 1), r, 3 if th else 2): plan.add("tga", tag + ":" + m, x, native, dims, n_variants=1 if not th else 2)
-        for (m, x) in G.random_mutations(b, r, 12 if th else 4): plan.add("tga", tag + ":" + m, x, native, dims, n_variants=1 if not th else 2)
+        for (m, x) in G.tail_corruptions(b, min(18, len(b) - 1), r, 3 if th else 2): plan.add("tga", tag + ":" + m, x, native, dims, n_variants=1)
+        for (m, x) in G.random_mutations(b, r, 6 if th else 4): plan.add("tga", tag + ":" + m, x, native, dims, n_variants=1)
     return plan.ops, plan.tags
 
 # ------------------------------------------------------------------ running
-def run_chunks(cmd, lines, jobs, env=None, timeout=3000):
+def run_chunks(cmd, lines, jobs, env=None, timeout=7200):
     """feed `lines` to `jobs` copies of cmd (interleaved chunks), return outputs in order"""
     if not lines: return []
     jobs = max(1, min(jobs, len(lines) // 8 or 1))
